@@ -182,6 +182,18 @@ Theorem C11_idempotent_accepted_partial : forall d q k op pairs up fs now d1 ch1
 Proof. exact (apply_idempotent_accepted _). Qed.
 Print Assumptions C11_idempotent_accepted_partial.
 
+(* ANY accepted update that combines $set / $min / $max / $addToSet / $pull /
+   $pullAll (several operators, any number of paths each) on plain field paths
+   is idempotent.  Partial: positional paths and index segments (see above);
+   $unset is covered on its own (C11_unset_idempotent_list_partial) *)
+Theorem C11_idempotent_update_partial : forall d q u up fs now d1 ch1,
+  idem_update the_matcher u ->
+  Forall (fun p => field_path (split_path p)) (named_paths u) ->
+  Apply d q u up fs now = Ok (d1, ch1) ->
+  exists ch2, Apply d1 q u up fs now = Ok (d1, ch2).
+Proof. exact (apply_idempotent_update _). Qed.
+Print Assumptions C11_idempotent_update_partial.
+
 (* a positional operator is only recognised at the start of a path segment
    (/repo 4eddedf): the path is cut exactly at a '.' separator, so the array
    that is resolved is named by a true segment prefix of the path in the update *)
@@ -448,6 +460,18 @@ Proof.
   split; [repeat constructor|]. split; [repeat constructor|].
   cbn. split; [|split; [constructor | exact I]]. constructor; [|constructor].
   right. split; [discriminate | intros i H; discriminate].
+Qed.
+
+Example C11_ex_idem_update :
+  idem_update the_matcher [("$set", VDoc [("c.y", VInt32 7)]); ("$max", VDoc [("a", VInt32 3); ("n", VInt32 0)])] /\
+  Apply ex_doc [] [("$set", VDoc [("c.y", VInt32 7)]); ("$max", VDoc [("a", VInt32 3); ("n", VInt32 0)])] false [] 0 =
+  Ok ([("a", VInt32 3); ("b", VArr [VInt32 1; VInt32 2; VInt32 2]); ("c", VDoc [("x", VInt32 5); ("y", VInt32 7)]); ("n", VInt32 0)],
+      [("a", VInt32 3); ("c.y", VInt32 7); ("n", VInt32 0)]) /\
+  Apply ex_doc [] [("$set", VDoc [("c.y", VInt32 7)]); ("$max", VDoc [("a", VInt32 3); ("c", VInt32 0)])] false [] 0 = Err.
+Proof.
+  split; [|split; vm_compute; reflexivity].
+  eapply iu_cons; [apply io_set | repeat constructor |].
+  eapply iu_cons; [apply io_max | repeat constructor | constructor].
 Qed.
 
 Example C11_ex_pull_twice :
